@@ -744,3 +744,46 @@ def check_local_generators(chk, rule, prog, module, solver_names=("expmv", "eigs
                                 f"argument `{x}`: the map is affine, not linear -- e.g. an energy shift applied to the fixed start tensor instead of the "
                                 f"Krylov vector; the evolved state is wrong by more than a phase (only with the non-default option that selects this branch)")
     return n
+
+
+def check_env_reset_per_substep(chk, rule, prog, f):
+    """tdvp_: every sub-step samples the generator at its own time, `Ht(t)`; for a time-dependent generator the environment built for
+    another time is stale.  The sweep call that receives `Ht(<time>)` therefore receives, in the same call, the environment passed
+    through the reset function (the local that is the identity for a time-independent H and returns None otherwise) -- a reset made
+    once per time step leaves the sub-steps 2..5 of the 4th-order scheme with the operator of sub-step 1."""
+    fn = f.node
+    b = A.local_bindings(fn)
+    # the reset function: a local bound to lambdas of one parameter, one alternative returning None, another the parameter itself
+    resets = set()
+    for nm, ds in b.items():
+        lams = [v for st, v, k in ds if isinstance(v, ast.Lambda) and len(v.args.args) == 1]
+        if len(lams) >= 2 and any(isinstance(l.body, ast.Constant) and l.body.value is None for l in lams) \
+                and any(isinstance(l.body, ast.Name) and l.body.id == l.args.args[0].arg for l in lams):
+            resets.add(nm)
+    chk.require(resets, f"{f.short}: the environment reset (identity for time-independent H, None otherwise) not found")
+    n = 0
+    for nm, ds in b.items():
+        for st, v, k in ds:
+            if not (isinstance(v, ast.Lambda) and len(v.args.args) == 3):
+                continue
+            for c in ast.walk(v.body):
+                if not (isinstance(c, ast.Call) and isinstance(c.func, ast.Name) and c.func.id.startswith("_tdvp_sweep")):
+                    continue
+                tgt = prog.resolve(f.module, c.func.id)
+                if not (hasattr(tgt, "params") and "env" in tgt.params):
+                    continue
+                bound = dict(zip(tgt.params, c.args))
+                bound.update({kw.arg: kw.value for kw in c.keywords if kw.arg})
+                e = bound.get("env")
+                samples_time = any(isinstance(a_, ast.Call) and isinstance(a_.func, ast.Name) and a_.args for a_ in bound.values()
+                                   if a_ is not e and isinstance(a_, ast.Call) and A.text(a_.func) not in resets)
+                n += 1
+                ok = isinstance(e, ast.Call) and isinstance(e.func, ast.Name) and e.func.id in resets and len(e.args) == 1 \
+                    and isinstance(e.args[0], ast.Name) and e.args[0].id == v.args.args[2].arg
+                chk.verdict(rule, (f, c), f"{f.short}: `{c.func.id}(.., env={A.text(e) if e is not None else '?'})` resets the environment in the call that samples H(t)",
+                            True if ok else False,
+                            f"{f.short}(): the sub-step `{A.short(c, 60)}` evaluates the generator at its own time but receives the environment "
+                            f"`{A.text(e) if e is not None else '?'}` without passing it through the reset `{sorted(resets)[0]}(..)`: for a time-dependent H the "
+                            f"environment (and the operator inside it) of the previous sub-step is reused -- the 4th-order composition evolves sub-steps "
+                            f"2..5 with H of sub-step 1 and drops to first order")
+    return n
